@@ -31,6 +31,8 @@ def showPairs (l : List (Nat × Nat)) : String :=
   lnew <req>, lput <k> <v>, lget <k> → v|-, lgetput <k> <fv> → v, lstats → hits misses,
   lentries → k:v,…, lreset                     (lrucache)
   cget <k> <fv>           → v t|f               (cache.Get; fv = what the getter would return; t = getter called)
+  cgetfail <k>            → v f | !panic        (cache.Get with a getter that panics)
+  cgetnest <k> <k2> <fv2> <fv> → v t|f [v2 t|f] (cache.Get whose getter calls Get(k2) on the same cache)
   mput/mget/mdel/mgetinit/msize/mclear/miter    (shmap, spec level; miter sorted by key)
 -/
 def step (s : St) (l : List String) : St × String :=
@@ -92,6 +94,19 @@ def step (s : St) (l : List String) : St × String :=
       let (c, v, called) := Cache8.get s.cache k fv
       ({ s with cache := c }, s!"{v} {showBool called}")
     | _, _ => (s, "bad-op")
+  | ["cgetfail", k] =>
+    match parseNat k with
+    | some k =>
+      let (c, r) := Cache8.getFail s.cache k
+      ({ s with cache := c }, match r with | some v => s!"{v} f" | none => "!panic")
+    | none => (s, "bad-op")
+  | ["cgetnest", k, k2, fv2, fv] =>
+    match parseNat k, parseNat k2, parseNat fv2, parseNat fv with
+    | some k, some k2, some fv2, some fv =>
+      let (c, v, called, inner) := Cache8.getNest s.cache k k2 fv2 fv
+      ({ s with cache := c }, s!"{v} {showBool called}" ++
+        (match inner with | some (v2, c2) => s!" {v2} {showBool c2}" | none => ""))
+    | _, _, _, _ => (s, "bad-op")
   | ["mput", k, v] =>
     match parseNat k, parseNat v with
     | some k, some v => ({ s with shm := Assoc.put s.shm k v }, "ok")
